@@ -140,6 +140,16 @@ def cte_family(tier):
     return out
 
 
+def join_spelling_family(tier):
+    """every spelling of a join kind the live grammar has (two-word and three-word forms, other letter cases) x ON clauses with single-table
+    conjuncts on either side x a WHERE on the nullable side: the join kind decides which rows survive, however it is spelled"""
+    from harness.c14lib import join_spellings
+    sp = [j for j in join_spellings() if j.upper() not in ('JOIN', 'LEFT JOIN', 'RIGHT JOIN', 'FULL JOIN', 'INNER JOIN') or j != j.upper()]
+    ons = ['x.id = y.id AND y.c > 1', 'x.id = y.id AND x.a = 1', 'x.id = y.id AND y.c = 1 AND x.b IS NOT NULL']
+    whs = ['', ' WHERE y.c IS NULL'] if tier == 'quick' else ['', ' WHERE y.c IS NULL', ' WHERE x.a > 0']
+    return ['SELECT x.a, y.c FROM int1.t1 AS x %s int2.t2 AS y ON %s%s' % (j, on, wh) for j in sp for on in ons for wh in whs]
+
+
 def family(tier):
     out = []
     if tier == 'quick':
@@ -157,7 +167,7 @@ def family(tier):
         sqls.append(sql)
     # deterministic de-dup preserving order
     seen, res = set(), []
-    for s_ in sqls + EXTRA + atom_family(tier) + nested_family(tier) + on_family(tier) + setop_family(tier) + chain_family(tier) + cte_family(tier):
+    for s_ in sqls + EXTRA + atom_family(tier) + nested_family(tier) + on_family(tier) + setop_family(tier) + chain_family(tier) + cte_family(tier) + join_spelling_family(tier):
         if s_ not in seen:
             seen.add(s_)
             res.append(s_)
